@@ -25,6 +25,7 @@ namespace MapMatch
 inductive Field where
   | originX | originY | destinationX | destinationY
   | originVertex | destinationVertex | originEdge | destinationEdge
+  | gridSearch | queryWeightEstimate
   deriving DecidableEq, Repr, Inhabited
 
 /-- `InputField::to_str` -/
@@ -37,6 +38,8 @@ def Field.name : Field → String
   | .destinationVertex => "destination_vertex"
   | .originEdge => "origin_edge"
   | .destinationEdge => "destination_edge"
+  | .gridSearch => "grid_search"
+  | .queryWeightEstimate => "query_weight_estimate"
 
 /-- error kinds; the last six are all `InputPluginError::InputPluginFailed(message)` in the code -/
 inductive Err where
